@@ -38,6 +38,15 @@ pub struct Knobs {
     /// the wall clock is not monotonic: per-mille chance that a response is stamped with a reading taken after the clock stepped
     /// BACK by several seconds (its receive time then lies before the send time of the probe it answers)
     pub p_clock_stepped_back: u64,
+    /// the publish callback (state update under the write lock, the user's closure) takes time: per-mille chance per published round
+    pub p_slow_publish: u64,
+}
+
+fn alias_of(a: IpAddr) -> IpAddr {
+    let mut b = addr_bytes(a);
+    let n = b.len();
+    b[n - 1] ^= 0x40;
+    crate::strat::addr_from(&b)
 }
 
 /// set when a simulated environment ended a run because its iteration budget was used up (read and reset by strat::exec)
@@ -162,7 +171,9 @@ impl Env for SimEnv {
         if ttl >= self.target_dist && self.target_dist > 0 {
             if self.target_answers {
                 let delay = path.get(self.target_dist - 1).map_or(1_000_000, |h| h.delay_ns);
-                let d = ResponseData::new(vclock::from_ns(0), self.cfg.target, pr);
+                // a multi-homed / anycast target may answer an echo request from another of its addresses
+                let from = if self.cfg.proto == Protocol::Icmp && self.rng.chance(1, 8) { alias_of(self.cfg.target) } else { self.cfg.target };
+                let d = ResponseData::new(vclock::from_ns(0), from, pr);
                 let r = match self.cfg.proto {
                     Protocol::Icmp => Response::EchoReply(d, IcmpPacketCode(0)),
                     Protocol::Udp => { let e = rand_exts(&mut self.rng); Response::DestinationUnreachable(d, IcmpPacketCode(3), e) }
@@ -228,6 +239,12 @@ impl Env for SimEnv {
             self.pending.push((now + d, r, None, Some(q)));
         }
         SendO::Sent
+    }
+
+    fn on_publish(&mut self) {
+        if self.rng.chance(self.knobs.p_slow_publish, 1000) {
+            vclock::advance(*self.rng.pick(&[200_000u64, 3_000_000, 40_000_000, 700_000_000]));
+        }
     }
 
     fn on_recv(&mut self) -> RecvO {
